@@ -443,7 +443,7 @@ def value_round_number(value, digits):
     :rtype: float
     """
 
-    multiplier = 10 ** digits
+    multiplier = 10 ** int(digits)
     return int(value * multiplier + (0.5 if value >= 0 else -0.5)) / multiplier
 
 
